@@ -84,6 +84,22 @@ func main() {
 				}
 				return true
 			})
+			// lock bracket structure of the function, in source order
+			var seq []string
+			ast.Inspect(fd.Body, func(n ast.Node) bool {
+				if call, ok := n.(*ast.CallExpr); ok {
+					if sel, ok := call.Fun.(*ast.SelectorExpr); ok {
+						switch sel.Sel.Name {
+						case "Lock", "Unlock", "RLock", "RUnlock", "TryRLock":
+							if tv, ok := info.Types[sel.X]; ok && strings.Contains(tv.Type.String(), "sync.") {
+								seq = append(seq, sel.Sel.Name)
+							}
+						}
+					}
+				}
+				return true
+			})
+			fmt.Printf("BRACKETS\t%s\t%s\t%s\n", pkgName, fname, strings.Join(seq, ","))
 			// named results assigned fresh objects count too (handled above via Uses)
 			// walk with a stack to know parents, and a linear lock tracker
 			var stack []ast.Node
